@@ -13,7 +13,7 @@ EXPLANATION = ("H1 panic-source cone over the MIR call graph (resolved callees, 
                "a cycle through several functions by a depth parameter compared with a constant before the recursive call; H3 on the paths of the TLV parser an `Incomplete` that stems from a "
                "parser applied to a take(len)-bounded content slice (or the cursor walking it) is never what the function returns - converted at the call, in the callee under `depth > 0` "
                "(decided by induction over the nesting), or both; H4 a decode error "
-               "leaves the driver loop with Err (dropping all reply senders); H5 a frame that has arrived completely is delivered or rejected, "
+               "leaves the driver loop with Err (dropping all reply senders): with the answer of the transport's stream fixed to Some(Err(e)) the select! hands it to the response arm and every path of the arm on it returns Err; H5 a frame that has arrived completely is delivered or rejected, "
                "never awaited: the frame decoder's path rules (shared with C06 G1 / G2) and, in the default and the gssapi configuration, "
                "Decoder::decode on a connection without a security layer answers what the frame decoder answers - a test of its own may say "
                "Ok(None) only for buffers too short to hold any complete element (rules/wrapper.py); H7 (C04 L6) the one-operation driver hands the connection back, and so stops decoding, only after the pending operation was answered; H8 what is and is not an LDAPMessage envelope: the frame decoder interpreted exactly on literal element trees - a well-formed envelope (universal constructed SEQUENCE of messageID 0..maxInt, protocolOp, controls [0] OPTIONAL) is delivered with the ID and operation it holds, each single-field mutation (class, tag number or form of the outer element; an element in front of the message ID; the ID missing, of another class / tag / form, empty, negative or too wide; a primitive controls element) is answered with an error.  Not decided: memory exhaustion on huge announced lengths; "
